@@ -11,9 +11,16 @@ def decode(string):
   validate_encoded(string)
   return unsafe_decode(string)
 
-def validate_decoded(integer):
-  pass
-  # always valid
+def validate_decoded(obj):
+  if isinstance(obj, bool) or \
+     not (isinstance(obj, int) or isinstance(obj, float)):
+    raise gfapy.TypeError(
+      "the class {} is incompatible with the datatype\n"
+      .format(obj.__class__.__name__)+
+      "(accepted classes: int, float)")
+  if obj != obj or obj in [float("inf"), float("-inf")]:
+    raise gfapy.ValueError(
+      "{} cannot be represented as a GFA float".format(repr(obj)))
 
 def validate_encoded(string):
   if not re.match(r"^[-+]?[0-9]*\.?[0-9]+([eE][-+]?[0-9]+)?$", string):
